@@ -192,7 +192,7 @@ def scope_pairing(prog, chk, rule):
             else:
                 chk.ok(rule, key, where, f"every exit after push_element passes pop_element ({len(closes)} direct close site(s), {len(edges)} Err-edge(s) closed by the inspect_err idiom)")
             # content is processed inside the scope
-            inner = R.calls_to(body, lambda c: c.path == "svgdx::transform::process_events" or c.decl_path == "svgdx::transform::EventGen::generate_events")
+            inner = R.calls_to(body, lambda c: c.path == "svgdx::transform::process_events" or (c.decl_path == "svgdx::transform::EventGen::generate_events" or c.path.endswith(" as svgdx::transform::EventGen>::generate_events")))
             for (ib, it, ic) in inner:
                 chk.ob(
                     body.dominates(b, ib) and b != ib,
